@@ -281,7 +281,7 @@ def get_reserved_bits_size(op: Reserve, preprocessor_data: PreprocessorData) -> 
         if reserved_bits_size < 0:
             macro_resolve_error(
                 preprocessor_data.curr_tree,
-                f"reserve must get a non-negative size, but got {reserved_bits_size}. In {op.code_position}.",
+                f"reserve must get a non-negative size, but got a negative one. In {op.code_position}.",
             )
         if reserved_bits_size % preprocessor_data.memory_width != 0:
             macro_resolve_error(
